@@ -117,5 +117,20 @@ func FamilyOddities() []*Conv {
 	add("unexported_named_type_in_field", "source PFXIn", "PFXOut", "type pfxInner struct{ V int }\ntype PFXIn struct{ In pfxInner }\ntype PFXOut struct{ In pfxInner }\n", nil, nil)
 	add("unexported_named_type_in_slice", "source []pfxInner2", "[]pfxInner2", "type pfxInner2 struct{ V []int }\n", nil, nil)
 	add("enum_on_func_constants", "source PFXE1", "PFXE2", "type PFXE1 int\ntype PFXE2 string\n\nconst (\n\tPFXE1A PFXE1 = iota\n\tPFXE1B\n)\n\nconst PFXE2A PFXE2 = \"a\"\n", []string{"enum:unknown @ignore"}, nil)
+	// the only method for a nested pair needs a context the calling method does not have (declared before / after
+	// the caller in build order, nested named struct or flat)
+	for _, sibName := range []string{"ZPFXItem", "APFXItem"} {
+		for k, inner := range []string{"type PFXIn struct {\n\tName string\n\tInner PFXInI\n}\ntype PFXOut struct {\n\tName string\n\tInner PFXOutI\n}\ntype PFXInI struct{ V int }\ntype PFXOutI struct{ V int }\n", "type PFXIn struct{ Name string }\ntype PFXOut struct{ Name string }\n"} {
+			f := []string{"struct", "function", "variable"}[n%3]
+			sib := "\t// goverter:context loc\n\t" + sibName + "(source PFXIn, loc PFXLocale) PFXOut\n"
+			if f == "variable" {
+				sib = "\t// goverter:context loc\n\t" + sibName + " func(source PFXIn, loc PFXLocale) PFXOut\n"
+			}
+			out = append(out, &Conv{ID: fmt.Sprintf("odd/declared_method_needs_unavailable_context_%s_%d/%s", sibName[:1], k, f), Family: "odd", Format: f,
+				Params: "source []PFXIn", Results: "[]PFXOut", Decls: "type PFXLocale struct{ Lang string }\n" + inner,
+				ExtraMethods: sib, Spec: &Spec{}, Solo: true, AnyOutcome: true})
+			n++
+		}
+	}
 	return out
 }
